@@ -234,6 +234,8 @@ al!(A8, 8);
 al!(A16, 16);
 al!(A32, 32);
 al!(A64, 64);
+al!(A256, 256);
+al!(A4096, 4096);
 
 const MAGIC: u32 = 0x70C0_DE00;
 
